@@ -135,6 +135,7 @@ def r13c(chk, rid='R13.c'):
     pt = ProfileTables(chk.repo)
     chk.ob(rid, PROFILES, 'Profiles._compile_regexes', "patterns are anchored '^(?:...)$' and case-insensitive", pt.compile_wrap == '^(?:%s)$' and bool(pt.flags & 2), f'{pt.compile_wrap!r} flags={pt.flags}')
     n = 0
+    seen_ok = {}
     for label, env in envs(pt).items():
         for prof, props, mac in pt.registration:
             for name, pat in pt.properties[props].items():
@@ -143,8 +144,9 @@ def r13c(chk, rid='R13.c'):
                 n += 1
                 try:
                     full = pt.expand(pat, env)
-                    rx.parse(pt.compile_wrap % full, pt.flags)
-                    ok, why = True, ''
+                    if full not in seen_ok:
+                        seen_ok[full] = rx.compiles(pt.compile_wrap % full, pt.flags)
+                    ok, why = seen_ok[full]
                 except KeyError as e:
                     ok, why = False, f'macro {e} is not defined in the {label} environment'
                 except AnalysisError as e:
